@@ -432,6 +432,13 @@ func (f *frame) binop(ins *ssa.BinOp) {
 func (f *frame) wrapInt(r Term, rt *typeInfo) Term {
 	vc := f.vc
 	r = vc.define(f.prefix+"_ar", r)
+	if vc.con == nil || !vc.con.WrapArith {
+		// default: prove that the operation does not wrap (obligation kind "overflow"), then the
+		// mathematical result is the Go result. Functions that rely on wrap-around say `overflow wrap`.
+		ins := f.curInstr()
+		f.safetyOb("overflow", ins.Pos(), "arith", vc.inRange(r, rt.bits, rt.signed))
+		return r
+	}
 	// convInt from an unbounded source: reuse the wrap logic with a wider "from" range
 	return vc.convInt(r, 200, true, rt.bits, rt.signed)
 }
